@@ -47,15 +47,27 @@ contract(T + ".mutate", "C20", ghost_params=Q, callbacks=APPROVE, params={"new_v
          },
          xensures={"raising-approver-changes-nothing": "value_unchanged(self, old(self), q)"})
 
+def approved_for(m, gene_name):
+    return m.gene_name == gene_name and m.approved
+
+
 RB_LOOP = "for mutation in reversed(self._mutations)"
-contract(T + ".rollback_mutation", "C20", ghost_params=Q, callbacks=APPROVE,
+contract(T + ".rollback_mutation", "C20", ghost_params=dict(Q, jm="int"), callbacks=APPROVE,
          loops={RB_LOOP: {"invariant": ["contract_calls('mutate') == 0", "value_unchanged(self, old(self), q)",
-                                        "len(self._mutations) == len(old(self)._mutations)"]}},
+                                        "len(self._mutations) == len(old(self)._mutations)",
+                                        # the records visited so far (the newest _k) are not approved mutations of the gene
+                                        "implies(len(self._mutations) - _k <= jm and jm < len(self._mutations), not approved_for(self._mutations[jm], gene_name))"],
+                          "keep": ["self._mutations", "self._genes"]}},      # only the returning iteration calls mutate (checked: loop-step keep[...])
          ensures={
              "rollback-goes-through-the-gate": "implies(result, contract_calls('mutate') == 1 and contract_arg('mutate', 0) == gene_name)",
              "refused-rollback-changes-nothing": "implies(not result, value_unchanged(self, old(self), q))",
-             "restores-the-value-before-that-mutation": "implies(contract_calls('mutate') == 1, contract_arg('mutate', 1) is mutation.original_value "
-                                                        "and mutation.approved and mutation.gene_name == gene_name)",
+             # the value handed to the gate is the pre-image of the LAST approved mutation of that gene: some logged record i is an approved
+             # mutation of the gene, carries that value, and no logged record after it (arbitrary ghost index jm) is one
+             "restores-the-value-before-the-last-approved-mutation": "implies(contract_calls('mutate') == 1, exists_index(old(self)._mutations, lambda i: "
+                                                                     "contract_arg('mutate', 1) is old(self)._mutations[i].original_value and approved_for(old(self)._mutations[i], gene_name) "
+                                                                     "and not (i < jm and jm < len(old(self)._mutations) and approved_for(old(self)._mutations[jm], gene_name))))",
+             "an-approved-mutation-is-rolled-back": "implies(0 <= jm and jm < len(old(self)._mutations) and approved_for(old(self)._mutations[jm], gene_name), "
+                                                    "contract_calls('mutate') == 1)",
          })
 
 contract(T + ".set_expression", "C20", ghost_params=Q, raises=[], modifies=["self._expression"],
